@@ -664,7 +664,7 @@ def run_document(src, tier, seed, only=None):
 
     for idx, ent in enumerate(ents):
         one(idx, ent, True)
-    orders = 1 if tier == "quick" else 3
+    orders = 1 if tier == "quick" else 2
     for _ in range(orders if only is None else 0):
         order = list(range(len(ents))); rng.shuffle(order)
         for idx in order:
@@ -753,7 +753,7 @@ def sources(tier, seed):
         samples = samples[seed % 2::2]
     for p in samples:
         out.append(dict(id="sample:" + p.name, kind="sample", path=str(p)))
-    ngen = 3 if tier == "quick" else 16
+    ngen = 3 if tier == "quick" else 8
     for i in range(ngen):
         out.append(dict(id="generated:text:%d" % i, kind="generated", spec=dict(gen="text", seed=seed * 1000 + i)))
         out.append(dict(id="generated:sheet:%d" % i, kind="generated", spec=dict(gen="sheet", seed=seed * 1000 + i)))
@@ -852,7 +852,7 @@ def run(tier, seed, replay=None):
              "objects per document: the document, body, meta, styles/content/manifest/settings parts, the first tables (first and last row, first cell), the first element(s) of every tag; "
              "per object: every property + every zero-argument method whose name matches the read pattern + the explicit argument list; every call twice, then again in %d shuffled order(s); snapshot compared after EVERY call. "
              "distinct_nontrivial = distinct (class, entry point) pairs that returned normally at least once"
-             % (sorted(BIG), sum(1 for s in srcs if s["id"].startswith("generated:text")), sum(1 for s in srcs if s["id"].startswith("generated:sheet")), 1 if tier == "quick" else 3),
+             % (sorted(BIG), sum(1 for s in srcs if s["id"].startswith("generated:text")), sum(1 for s in srcs if s["id"].startswith("generated:sheet")), 1 if tier == "quick" else 2),
         samples=samples, documents=len(jobs), big_sheets_skipped=skipped_big, calls=calls, coq_cases=len(cases),
         objects_by_kind=dict(sorted(hist.items())), timeouts=sum(r["timeouts"] for r in results), reader_exceptions=sum(r["exceptions"] for r in results),
         reloads_after_mutation=sum(r["reloads"] for r in results), failures=nfail, fidelity_divergences=fidelity,
